@@ -118,6 +118,7 @@ theorem powNewDim_spec {cfg : PowCfg} {sp : Space} {s s' : PowSt} {log : Log} (g
                 | choice _ => simp at h
                 | mutant _ => simp at h
                 | parents _ => simp at h
+                | vec _ => simp at h
     | unif _ => simp at h
     | climb _ _ => simp at h
     | dist _ _ => simp at h
@@ -132,6 +133,7 @@ theorem powNewDim_spec {cfg : PowCfg} {sp : Space} {s s' : PowSt} {log : Log} (g
     | mutant _ => simp at h
     | parents _ => simp at h
     | inits _ => simp at h
+    | vec _ => simp at h
 
 /-- what the configuration must say about the space -/
 structure Fits (cfg : PowCfg) (sp : Space) : Prop where
@@ -261,6 +263,7 @@ theorem powIterate_spec {cfg : PowCfg} {sp : Space} {f : Pos → Bool} (hf : Fit
     | mutant _ => simp at h
     | parents _ => simp at h
     | inits _ => simp at h
+    | vec _ => simp at h
 
 theorem powEvaluate_spec {cfg : PowCfg} {s s' : PowSt} {score : F} {log : Log} (g : Grounded log s.tr)
     (h : powEvaluate cfg s score = .ok s') :
